@@ -293,6 +293,16 @@ class Atoms:
                     return out
                 if ok:
                     return out + self._opaque("log", Rat.const(c))
+        # log(n/d) = log(n) - log(d) when one side is a positive monomial in exponentials (then the other side is positive
+        # too wherever the logarithm is defined):  log(e^x / (1 + e^x)) = x - log(1 + e^x)
+        def pos_exp_mono(p):
+            st = p.single_term()
+            return st is not None and st[1] > 0 and st[0] and all(a.startswith("exp[") or a.startswith("exp#") for a, _ in st[0])
+        if not r.n.is_zero() and (pos_exp_mono(r.n) != pos_exp_mono(r.d)) and (pos_exp_mono(r.n) or pos_exp_mono(r.d)) and \
+                r.n.single_term() != r.d.single_term():
+            ln = self.log(Rat(r.n)) if pos_exp_mono(r.n) else self._opaque("log", Rat(r.n))
+            ld = self.log(Rat(r.d)) if pos_exp_mono(r.d) else (ZERO if r.d.t == ONE_P.t else self._opaque("log", Rat(r.d)))
+            return ln - ld
         return self._opaque("log", r)
 
     def _exp_arg(self, name: str) -> Optional[Rat]:
@@ -876,6 +886,17 @@ class Evaluator:
     def _p_expm1(self, args, kw, node):
         return pw_un(as_pw(args[0]), lambda r: self.atoms.exp(r) - ONE)
 
+    def _p_sigmoid(self, args, kw, node):
+        # jax.nn.sigmoid(x) = 1 / (1 + exp(-x))
+        return pw_un(as_pw(args[0]), lambda r: ONE / (ONE + self.atoms.exp(-r)))
+
+    def _p_softplus(self, args, kw, node):
+        # jax.nn.softplus(x) = log(1 + exp(x))
+        return pw_un(as_pw(args[0]), lambda r: self.atoms.log(ONE + self.atoms.exp(r)))
+
+    def _p_logaddexp(self, args, kw, node):
+        return pw_bin(as_pw(args[0]), as_pw(args[1]), lambda a, b: self.atoms.log(self.atoms.exp(a) + self.atoms.exp(b)))
+
     def _p_tanh(self, args, kw, node):
         return pw_un(as_pw(args[0]), lambda r: self.atoms.odd("tanh", r))
 
@@ -927,6 +948,7 @@ class Evaluator:
         return PW.of(ZERO)
 
     PRIMS = {
+        "sigmoid": _p_sigmoid, "softplus": _p_softplus, "logaddexp": _p_logaddexp,
         "exp": _p_exp, "expm1": _p_expm1, "log": _p_log, "log1p": _p_log1p, "tanh": _p_tanh, "abs": _p_abs,
         "sqrt": _p_sqrt, "where": _p_where, "clip": _p_clip, "minimum": _p_minimum, "maximum": _p_maximum,
         "asarray": _p_identity, "array": _p_identity, "float": _p_identity,
